@@ -55,6 +55,7 @@ func (vc *VC) readInto(st *State, r Val, p Val) (string, Val) {
 	vc.assume(c, imp(and(app("bvsgt", p.L[2], bvLit(64, 0)), eq(n, bvLit(64, 0))), not(isNil)))
 	vc.assume(c, imp(isEOF, and(eq(np, L), app("bvsle", L, F))))
 	vc.assume(c, imp(and(not(isNil), not(isEOF)), eq(np, F)))
+	vc.readerErrNotSentinel(st, err)
 	vc.assume(c, imp(and(eq(pos, F), app("bvsgt", p.L[2], bvLit(64, 0))), and(not(isNil), not(isEOF))))
 	vc.assume(c, imp(and(eq(pos, L), app("bvsle", L, F), not(eq(pos, F)), app("bvsgt", p.L[2], bvLit(64, 0))), isEOF))
 	// buffer contents
@@ -115,6 +116,7 @@ func init() {
 		vc.assume(c, imp(and(short, cleanEnd), and(eq(isEOF, eq(n, bvLit(64, 0))), eq(isUEOF, not(eq(n, bvLit(64, 0)))))))
 		vc.assume(c, imp(and(short, not(cleanEnd)), and(not(isEOF), not(isUEOF))))
 		vc.assume(c, imp(isNil, and(not(isEOF), not(isUEOF))))
+		vc.readerErrNotSentinel(st, err)
 		hn := elemHeapName(elemKey(types.Typ[types.Uint8]), "")
 		hs := arrSort(sBV64, arrSort(sBV64, sBV8))
 		h := vc.heapTerm(st, hn, hs)
@@ -154,6 +156,7 @@ func init() {
 		vc.assume(c, eq(isNil, app("bvslt", pos, lim)))
 		vc.assume(c, imp(not(isNil), and(eq(isEOF, app("bvslt", L, F)), not(isUEOF))))
 		vc.assume(c, imp(isNil, and(not(isEOF), not(isUEOF))))
+		vc.readerErrNotSentinel(st, err)
 		// store the byte on success (on failure the pointee is unchanged)
 		old := vc.loadDesc(st, d)
 		nb := ite(isNil, vc.inAt(r, pos), old.L[0])
@@ -251,6 +254,7 @@ func init() {
 		isEOF := vc.errIs(err, vc.externErrVar("io.EOF"))
 		vc.assume(c, eq(isNil, eq(k, want)))
 		vc.assume(c, imp(not(isNil), eq(isEOF, app("bvslt", L, F))))
+		vc.readerErrNotSentinel(st, err)
 		vc.setPos(st, r, app("bvadd", pos, k))
 		// the destination's state changes (its Write is called with the copied bytes)
 		if hw, ok := vc.w.IfaceContracts["("+modPath+"/dyncrc16.Hash16).Write"]; ok {
@@ -269,3 +273,15 @@ func init() {
 // crcStreamUpdate is refined by the C04 machinery (running checksum over the
 // ghost stream); without it the destination state is unconstrained.
 func (vc *VC) crcStreamUpdate(st *State, dst, r Val, pos, k string) {}
+
+// readerErrNotSentinel: errors produced by the user's reader (or by io helpers
+// on its behalf) are never errors.Is one of the repository's own sentinel values.
+func (vc *VC) readerErrNotSentinel(st *State, err Val) {
+	vc.declareFun("ErrIs", []string{sBV64, sBV64, sBV64, sBV64}, sBool)
+	for _, t := range vc.w.errTargetList(vc) {
+		if t.g == nil {
+			continue
+		}
+		vc.assume(st.cond, not(vc.errIs(err, t.val)))
+	}
+}
